@@ -283,6 +283,18 @@ func (c *Conn) Rules(m *ref9p.Msg) Expect {
 	return Expect{Forward: Either, Why: "type outside the model"}
 }
 
+// Version is the effect of a Tversion that is answered Rversion in mid-session
+// (nothing outstanding) on the model: the dialect and msize follow the reply,
+// the fid table is untouched. The C04 statement lists what invalidates a fid
+// (a successful Tclunk, any Tremove); a Tversion is an "unrelated operation",
+// so every fid stays valid and bound to the same user. (The 9P manual's
+// convention that a Tversion frees all fids is NOT what the statement says;
+// the model follows the statement.)
+func (c *Conn) Version(dotu bool, msize uint32) {
+	c.Dotu = dotu
+	c.Msize = msize
+}
+
 // Apply updates the fid table for request m answered by reply r. inc/newinc
 // are the incarnation numbers the implementation logged for the fid / newfid
 // (0 if it was not invoked).
